@@ -268,14 +268,20 @@ def _cmap4(b):
     m = {}
     kinds = {"delta": 0, "range": 0, "wrap": 0}
     prev_end = -1
+    double_ffff = False
     for i in range(n):
         s, e = start[i], end[i]
         if s > e:
             raise Bad("segment %d start > end" % i)
+        last = i == n - 1
+        if last and s == e == 0xFFFF and prev_end == 0xFFFF:
+            # a map that reaches U+FFFF followed by the mandatory closing segment: a lookup takes the first
+            # segment whose endCode >= code, so the closing segment is never consulted
+            double_ffff = True
+            continue
         if s <= prev_end:
             raise Bad("segment %d overlaps / unsorted" % i)
         prev_end = e
-        last = i == n - 1
         if ro[i] == 0:
             if not last:
                 kinds["delta"] += 1
@@ -297,7 +303,7 @@ def _cmap4(b):
                 if last and c == 0xFFFF and g == 0:
                     continue
                 m[c] = g
-    return m, {"segments": n, "kinds": kinds, "search_ok": want == got}
+    return m, {"segments": n, "kinds": kinds, "search_ok": want == got, "double_ffff": double_ffff}
 
 
 def _cmap6(b):
